@@ -84,6 +84,19 @@ fn cases_structural(_rng: &mut Rng, sink: &mut dyn FnMut(J) -> bool) {
             muts.push(json!({"kind": "payload_edit", "what": "exp"}));
             muts.push(json!({"kind": "iss_resolver", "variant": 0}));
             muts.push(json!({"kind": "iss_resolver", "variant": 1}));
+            // resolver keyed by the header's kid: two keys under one iss
+            let fam = keys::alg_of(alg);
+            let (k1, k2) = (fam.to_string(), format!("{fam}-other"));
+            for (kid, signer) in [(Some("k1"), &k1), (Some("k2"), &k2), (None, &k1), (Some("k2"), &k1), (Some("k1"), &k2), (None, &k2), (Some("k3"), &k2)] {
+                muts.push(json!({"kind": "kid", "kid": kid, "signer": signer}));
+            }
+            // attacker key shipped inside the protected header
+            for signer in ["ES256-other", "EdDSA-other", "HS256-other"] {
+                for with_kid in [false, true] {
+                    muts.push(json!({"kind": "embedded_jwk", "signer": signer, "with_kid": with_kid, "payload": "same"}));
+                    muts.push(json!({"kind": "embedded_jwk", "signer": signer, "with_kid": with_kid, "payload": "forged"}));
+                }
+            }
             for m in muts {
                 if !sink(case_of(&cfg, m)) {
                     return;
@@ -300,6 +313,38 @@ pub fn mutate(cfg: &Cfg, p: &Parts, m: &J) -> Option<(Parts, J)> {
             let new_payload = b64e(jstr(&J::Object(pl)).as_bytes());
             Some((set_part(p, "payload", &new_payload), own_key))
         }
+        "kid" => {
+            // same payload re-signed with an explicit kid; resolver: k1 -> family key, k2 -> the other key, default k1
+            let fam = keys::alg_of(&cfg.alg);
+            let signer = m["signer"].as_str()?;
+            let mut header = Header::new(Algorithm::from_str(fam).ok()?);
+            header.kid = m["kid"].as_str().map(String::from);
+            let jwt = jsonwebtoken::encode(&header, &J::Object(p.payload()?), &keys::issuer_enc(signer)).ok()?;
+            let resolver = json!({"$kid": {"k1": fam, "k2": format!("{fam}-other")}, "$default": fam});
+            Some((Parts { jwt, disclosures: p.disclosures.clone(), kb: p.kb.clone() }, resolver))
+        }
+        "embedded_jwk" => {
+            let signer = m["signer"].as_str()?;
+            let alg = keys::alg_of(signer);
+            let jwk: J = match signer {
+                "ES256-other" => keys::holder_jwk_json("es256"),
+                "EdDSA-other" => keys::holder_jwk_json("eddsa"),
+                _ => json!({"kty": "oct", "k": b64e(keys::HS_SECRET_OTHER)}),
+            };
+            let mut header = Header::new(Algorithm::from_str(alg).ok()?);
+            header.jwk = serde_json::from_value(jwk).ok();
+            header.jwk.as_ref()?;
+            if m["with_kid"].as_bool().unwrap_or(false) {
+                header.kid = Some("k1".into());
+            }
+            let mut pl = p.payload()?;
+            if m["payload"] == "forged" {
+                pl.insert("admin".into(), json!(true));
+                pl.shift_remove("cnf");
+            }
+            let jwt = jsonwebtoken::encode(&header, &J::Object(pl), &keys::issuer_enc(signer)).ok()?;
+            Some((Parts { jwt, disclosures: p.disclosures.clone(), kb: p.kb.clone() }, own_key))
+        }
         "iss_resolver" => {
             // resolver keyed by iss; token signed with one issuer's key claims the other issuer
             let mut pl = p.payload()?;
@@ -345,6 +390,25 @@ pub fn check(case: &J) -> Verdict {
         return Verdict::Trivial;
     }
     let text = tampered.serialize(&cfg.format);
+    if m["kind"] == "kid" {
+        // accepted iff the key the resolver returns for this header is the signer's
+        let fam = keys::alg_of(&cfg.alg);
+        let resolved = match m["kid"].as_str() {
+            Some("k1") | None => fam.to_string(),
+            Some("k2") => format!("{fam}-other"),
+            _ => fam.to_string(),
+        };
+        if m["signer"].as_str() == Some(resolved.as_str()) {
+            // the KB-JWT (if any) was made for the original JWT; verify without key binding
+            return match sut::verify_with(&text, &key, None, None, &cfg.format) {
+                Out::Ok(_) => Verdict::Pass,
+                o => fail(
+                    format!("token with kid {} signed by the key the resolver returns for that kid -> {}", m["kid"], o.brief()),
+                    "accepted (the resolver is handed the token's real protected header)",
+                ),
+            };
+        }
+    }
     match sut::verify_with(&text, &key, aud, nonce, &cfg.format) {
         Out::Err(_) => Verdict::Pass,
         Out::Ok(v) => fail(
